@@ -228,6 +228,11 @@ class Pointwise(Interp):
 
             if isinstance(l, _PVMethod) and isinstance(r, _PVMethod) and l.name == r.name and l.pv.origin == r.pv.origin and isinstance(op, (ast.Eq, ast.NotEq)):
                 return isinstance(op, ast.Eq)
+            if isinstance(l, _PVMethod) and l.name == "size" and isinstance(l.pv, PV) and l.pv.kind == "arr" and not l.pv.uniq and isinstance(r, int) and not isinstance(r, bool) and r in (0, 1):
+                # an array of which a generic voxel is considered has at least that voxel
+                t = {(ast.Gt, 0): True, (ast.NotEq, 0): True, (ast.GtE, 1): True, (ast.Eq, 0): False, (ast.LtE, 0): False, (ast.Lt, 1): False, (ast.GtE, 0): True}.get((type(op), r))
+                if t is not None:
+                    return t
             return self._dtype_fact(f"{key(l)} {type(op).__name__} {key(r)}", node, False)
         return super().compare(op, l, r, node)
 
@@ -329,6 +334,15 @@ class Pointwise(Interp):
             return PV(pv.poly, dt, pv.kind, pv.origin, uniq=pv.uniq)
         if name == "copy":
             return pv
+        if name == "max" and not args and not kwargs and pv.kind == "arr":
+            # the array's maximum is at least the value at the generic voxel: that value plus a
+            # fresh non-negative unknown (one per array value, so asking twice gives the same)
+            mx = self.root.__dict__.setdefault("_max_vars", {})
+            key = (repr(pv.poly), pv.cont, pv.origin)
+            if key not in mx:
+                mx[key] = Poly.var(f"mx{len(mx)}_{pv.origin or 'arr'}")
+                self.root.__dict__.setdefault("max_polys", []).append(pv.poly + mx[key])
+            return PV(pv.poly + mx[key], pv.cont, "nps", pv.origin)
         if name in ("max", "min"):
             return Unknown(f"{name} of array")
         if name in ("sum", "any", "all"):
@@ -362,7 +376,7 @@ class Pointwise(Interp):
                 a = args[0]
                 return PV(a.poly, a.cont, "arr", a.origin, uniq=True)
             return Unknown("np.unique with options")
-        if n in _UFUNC_OPS and len(args) == 2 and not (set(kwargs) - {"out"}):
+        if n in _UFUNC_OPS and len(args) == 2 and not (set(kwargs) - {"out", "casting"}):
             res = self.binop(_UFUNC_OPS[n](), args[0], args[1], node)
             out = kwargs.get("out")
             if out is not None:
